@@ -7,9 +7,28 @@ import lift
 from core import (BOUNDED, CANARY, CONTRACT, LEMMA, REPO, ROOT, UNDECIDED, WITNESS, WORK, Ob)
 from rsparse import LostAnchor
 
-CRATE = os.path.join(ROOT, "kani_path")
+import shutil
+
+SRC_CRATE = os.path.join(ROOT, "kani_path")
 TARGET = os.path.join(WORK, "kani_path_target")
-GEN = os.path.join(WORK, "gen")
+if REPO == "/repo":
+    CRATE = SRC_CRATE
+    GEN = os.path.join(ROOT, ".work", "gen")
+else:
+    # sensitivity run on a scratch copy of the repository: the crate's include!/#[path]
+    # lines name /repo and /verif/.work/gen literally, so work on a re-pointed copy
+    CRATE = os.path.join(WORK, "kani_path_copy")
+    GEN = os.path.join(WORK, "gen")
+
+
+def _repoint():
+    if CRATE == SRC_CRATE:
+        return
+    shutil.rmtree(CRATE, ignore_errors=True)
+    shutil.copytree(SRC_CRATE, CRATE, ignore=shutil.ignore_patterns("target", "Cargo.lock"))
+    lib = os.path.join(CRATE, "src", "lib.rs")
+    t = open(lib).read().replace('"/repo/', '"%s/' % REPO).replace('"/verif/.work/gen/', '"%s/' % GEN)
+    open(lib, "w").write(t)
 
 BF_FILE = "bindgen/codegen/bitfield_unit.rs"
 
@@ -17,6 +36,7 @@ BF_FILE = "bindgen/codegen/bitfield_unit.rs"
 def prepare():
     """regenerate everything the path crate includes from /repo's current tree"""
     os.makedirs(GEN, exist_ok=True)
+    _repoint()
     info = {}
     try:
         info["lift"] = lift.lift(os.path.join(REPO, BF_FILE), os.path.join(GEN, "bitfield_unit_lifted.rs"))
